@@ -61,7 +61,11 @@ pub fn check_select(sys: &SelSys, spec: &SelSpec) -> Vec<Fail> {
     };
     EXECUTED.inc();
     note_live(spec.as_ops().iter().map(op_class));
-    let ordered = !spec.orders.is_empty();
+    if spec.order_is_arbitrary() && (spec.limit.is_some() || spec.offset.is_some()) {
+        // which rows survive LIMIT depends on an arbitrary order: nothing to compare
+        return vec![];
+    }
+    let ordered = !spec.orders.is_empty() && !spec.order_is_arbitrary();
     let canon = |r: &crate::sqlite::Rows| if ordered { row_list(r) } else { row_multiset(r) };
     let want_rows = canon(&want);
     let mut fails = vec![];
